@@ -97,7 +97,7 @@ def x2s(x, sc): return f'{x} ({sc["atts"][x]})'
 def run(seed, tier, lean) -> Result:
     res = _run(seed, tier, lean)
     rnd = random.Random(seed ^ 0x11C11)
-    nfree = 300 if tier == 'quick' else 20000
+    nfree = 300 if tier == 'quick' else 1800
     for _ in range(nfree):
         sc = gen_free(rnd)
         res.evaluations += 1; res.bump('free_attacker_scenarios')
@@ -113,7 +113,7 @@ def _run(seed, tier, lean) -> Result:
     res = run_histories('C11', seed, tier, lean, WEIGHTS, step_oracle,
                         lambda kinds, ops: any(o['k'] in ('remove_attacker', 'undo') for o in ops) and
                                            any(o['k'] == 'add_attacker' and len(o['reached']) >= 2 for o in ops),
-                        quick_n=400, thorough_n=20000)
+                        quick_n=400, thorough_n=2400)
     res.rule = ('random histories of compromise/undo (from either side), attach, add/remove attacker over several '
                 'attackers; after every step the mirror relation, idempotence of compromise, no-op undo, clean '
                 'removal and exact attachment are checked on the real objects and the state is compared with the '
